@@ -486,8 +486,26 @@ func (u *Unit) Taint(src ssa.Value, opt *TaintOpts) []TaintHit {
 				// propagate to callers' call values
 				fn := x.Parent()
 				for _, cs := range fi.callers[fn] {
-					if v := cs.Value(); v != nil {
+					v := cs.Value()
+					if v == nil {
+						continue
+					}
+					if len(x.Results) <= 1 {
 						push(v, it.path+" → return of "+u.qualName(fn))
+						continue
+					}
+					// multi-result: only the matching component of the tuple is tainted
+					for ri, rv := range x.Results {
+						if rv != it.v {
+							continue
+						}
+						if refs := v.Referrers(); refs != nil {
+							for _, ref := range *refs {
+								if ex, ok := ref.(*ssa.Extract); ok && ex.Index == ri {
+									push(ex, it.path+" → result "+itoa(ri)+" of "+u.qualName(fn))
+								}
+							}
+						}
 					}
 				}
 			case *ssa.Store:
